@@ -16,8 +16,9 @@ MANIFEST = dict(
          "conjunct for an arbitrary filter unless its own tag is downgraded.  C08_unknown_exact / _never_ok / _reported: "
          "an UnknownDestinations answer lists exactly the unclassified output indices, such a transaction is never "
          "accepted, and when nothing else refuses that answer is returned; C08_approval_needed: the approver passes a "
-         "transaction only if the check passed or it approved exactly that index list.  C08_overflow_refused (checked "
-         "sums).  C08_fee_velocity instantiates C12_window for the fee control: for every policy (any maximum "
+         "transaction only if the check passed or it approved exactly that index list.  C08_memo_exact_once: the memorizing approver over a declining delegate says yes only when "
+         "the operation right before the request is an approve naming this very transaction (used once).  "
+         "C08_overflow_refused (checked sums).  C08_fee_velocity instantiates C12_window for the fee control: for every policy (any maximum "
          "feerate), every finite fee limit and every history of on-chain requests, node-entry writes and restarts, "
          "the true non-beneficial values accepted in any window sum to at most the limit.  C08_msat_wrap_refuted keeps "
          "the witness against check_onchain_tx as found (value*1000 in plain u64; repaired in /repo by 06905f5) and the "
@@ -42,7 +43,7 @@ MANIFEST = dict(
               "velocity model) + vm_compute correspondence with the Rust implementation + u128 reference monitor",
 )
 
-PINNED = ["C08_msat_wrap_refuted", "C08_ok_implies", "C08_ok_per_tag", "C08_funded_checked", "C08_unknown_exact", "C08_unknown_never_ok",
+PINNED = ["C08_memo_exact_once", "C08_memo_nonvacuous", "C08_msat_wrap_refuted", "C08_ok_implies", "C08_ok_per_tag", "C08_funded_checked", "C08_unknown_exact", "C08_unknown_never_ok",
           "C08_unknown_reported", "C08_approval_needed", "C08_overflow_refused", "C08_fee_velocity",
           "C08_nonvacuous", "C08_unknown_nonvacuous", "C08_fee_velocity_nonvacuous", "C08_rate_truncation_refuted"]
 
@@ -64,13 +65,15 @@ def run(res):
     n_node = 1500 if quick else 15000
     n_val = 2400 if quick else 25000
     n_handler = 900 if quick else 12000
-    node, val, hand, stats, aborted = [], [], [], [], []
+    n_memo = 300 if quick else 4000
+    node, val, hand, memo, stats, aborted = [], [], [], [], [], []
     chunks = 6 if quick else 25
     for prof in profiles:
         # in chunks: a panic inside check_onchain_tx while the state lock is held turns into a process abort
         # (second panic in the deferred trace), which must not hide what the other cases show
         for k in range(chunks):
-            for sub, n, sink in (("node", n_node, node), ("val", n_val, val), ("handler", n_handler, hand)):
+            for sub, n, sink in (("node", n_node, node), ("val", n_val, val), ("handler", n_handler, hand),
+                                 ("memo", n_memo, memo)):
                 try:
                     r = lib.run_harness("onchain", sub, res.seed * 1000 + k, n // chunks, res.tier, profile=prof)
                 except lib.Fail as e:
@@ -112,6 +115,8 @@ def run(res):
     vterms = [c["coq"] for c in val]
     fn = lib.coq_failures(IMPORTS, "node_case", "check_node", nterms, "c08_node")
     fv = lib.coq_failures(IMPORTS, "val_case", "check_val", vterms, "c08_val")
+    mterms = [c["coq"] for c in memo]
+    fm = lib.coq_failures(IMPORTS, "memo_case", "check_memo", mterms, "c08_memo")
     hsteps = [c for c in hand if c["coq"]]
     hterms = [c["coq"][0] for c in hsteps]
     fh = lib.coq_failures(IMPORTS, "handler_case", "check_handler", hterms, "c08_handler")
@@ -172,6 +177,24 @@ def run(res):
                       {"correspondence": "onchain-val", "theorem": "C08_ok_per_tag", "case": _strip(c),
                        "model": model[-400:]}, has_input=False)
 
+    mon_memo = [c for c in memo if c["monitor_violation"]]
+    mon_memo.sort(key=lambda c: 0 if any("larger input" in m for m in c["monitor_violation"]) else 1)
+    for c in mon_memo[:2]:
+        res.violation("SignWithdrawal under the repository's approver %s: " % c["approver"] + "; ".join(c["monitor_violation"][:2]),
+                      {"domain": "onchain-memo", "seed": res.seed, "case": _strip(c)})
+    shown = 0
+    for j in fm:
+        c = memo[j]
+        if c["monitor_violation"]:
+            continue
+        if shown >= 2:
+            break
+        shown += 1
+        model = lib.coq_eval(IMPORTS, "memo_model (%s)" % mterms[j], "c08_show")
+        res.violation("the approver's answers over a history of approve / request disagree with Model.Onchain.mrun "
+                      "(correspondence onchain-memo)",
+                      {"correspondence": "onchain-memo", "theorem": "C08_memo_exact_once", "case": _strip(c),
+                       "model": model[-300:]}, has_input=False)
     shown = 0
     for j in fh:
         c = hsteps[j]
@@ -212,8 +235,10 @@ def run(res):
     for c in hand:
         if c["coq"]:
             nontrivial.add(c["coq"][0])
+    for c in memo:
+        nontrivial.add(c["coq"] + c["transactions"][0]["txid"])
     cov.update({
-        "evaluations": len(nterms) + len(vterms) + len(hand),
+        "evaluations": len(nterms) + len(vterms) + len(hand) + len(memo),
         "distinct_nontrivial": len(nontrivial),
         "rule": "node: a fresh real node per case (own policy: max_feerate_per_kw in {253, 1000, 25000, 333333, 4e9, "
                 "2^32-2, 2^32-1}, fee velocity hourly/daily/unlimited with limits 1e7..1e15 msat, filter rule sets, dev "
@@ -237,12 +262,17 @@ def run(res):
                 "0 / bound-1 / bound / bound+1, hidden value 1 .. 1e8 sat) encoded with as_vec, decoded with from_vec, "
                 "handled by RootHandler with a recording approver; the reply is checked for on-chain validity against the "
                 "TRUE previous outputs (consensus verification; taproot by rule) and the monitor uses the true values. "
+                "memo: the repository's approvers (MemoApprover over Negative / Velocity<Negative> / Positive, Negative, "
+                "WarningPositive) under RootHandler: approve(A), request A, A again, then look-alikes of A (same outputs "
+                "with a larger / another / an additional input, another locktime, another sequence, one output value "
+                "lowered), then random approve / request operations; every transaction pays an unknown destination. "
                 "Non-trivial = at least two outputs or a funded channel (val: and no panic); distinct by full Coq term.",
         "samples": [_strip(node[0]) if node else None, _strip(val[0]) if val else None],
-        "traces_validated_against_impl": len(nterms) + len(vterms) + len(hand),
-        "correspondence_disagreements": len(fn) + len(fv) + len(fh) + len(dec_dis),
-        "disagreements_by_domain": {"node": len(fn), "val": len(fv), "handler": len(fh), "handler-decode": len(dec_dis)},
-        "monitor_failures": len(mon_node) + len(mon_val) + len(mon_hand),
+        "traces_validated_against_impl": len(nterms) + len(vterms) + len(hand) + len(memo),
+        "correspondence_disagreements": len(fn) + len(fv) + len(fh) + len(dec_dis) + len(fm),
+        "disagreements_by_domain": {"node": len(fn), "val": len(fv), "handler": len(fh), "handler-decode": len(dec_dis),
+                                    "memo": len(fm)},
+        "monitor_failures": len(mon_node) + len(mon_val) + len(mon_hand) + len(mon_memo),
         "observed_distribution_node_check(0 ok,1 panic,2 unknown,100+tag)": dist_node,
         "observed_distribution_val(0 ok,1 panic,2 unknown,100+tag)": dist_val,
         "profiles": profiles,
